@@ -1027,7 +1027,7 @@ func c03Writer(c *fw.Ctx) fw.Outcome {
 var _ = time.Second
 
 func init() {
-	n := func(tier string) int64 { return tierN(tier, 3000, 50000) }
+	n := func(tier string) int64 { return tierN(tier, 3000, 250000) }
 	fw.Register(&fw.Property{
 		ID:    "C03",
 		Level: "exploration",
